@@ -7,6 +7,10 @@ def run(ctx: Ctx) -> None:
     with ctx.parallel():  # every obligation builds its own environment
         T.run_inverse(ctx)
         T.run_generic(ctx, inverse=True)
+    from ..tables import t2_rot
+    with ctx.only("T7.quat-to-matrix"):  # the transposed matrix of QuaternionRotation is its inverse only if the helper normalises (shared with C08)
+        t2_rot.run_quaternion(ctx)
+    ctx.floor("T7.quat-to-matrix", 2)
     ctx.floor("T67.generic-inverse", 6)
     ctx.floor("T67.inverse", 200)
     ctx.floor("T67.inverse-velocity", 30)
